@@ -95,6 +95,9 @@ func cmdCheck(args []string) {
 		cmdReplay([]string{"-file", *replay, "-repo", *repo})
 		return
 	}
+	if r := os.Getenv("VERIF_REPO"); r != "" && *repo == "/repo" {
+		*repo = r // development aid: run the checks against a scratch worktree
+	}
 	if *tier == "" {
 		*tier = os.Getenv("VERIF_TIER")
 	}
@@ -116,6 +119,11 @@ func cmdCheck(args []string) {
 		os.Exit(2)
 	}
 	root := verifRoot()
+	evDir := filepath.Join(root, "evidence")
+	rpDir := filepath.Join(root, "replays")
+	if d := os.Getenv("VERIF_EVIDENCE_DIR"); d != "" { // development aid: keep /verif/evidence untouched
+		evDir, rpDir = d, filepath.Join(d, "replays")
+	}
 	t0 := time.Now()
 	dirSet := map[string]bool{}
 	for _, r := range spec.runs {
@@ -244,13 +252,13 @@ func cmdCheck(args []string) {
 		}
 	}
 	if len(scripts) > 0 {
-		os.MkdirAll(filepath.Join(root, "evidence"), 0o755)
-		os.WriteFile(filepath.Join(root, "evidence", spec.id+".smt2"), []byte("; sample of an assertion query discharged by this run (expected: "+answers[0]+")\n"+scripts[0]), 0o644)
+		os.MkdirAll(evDir, 0o755)
+		os.WriteFile(filepath.Join(evDir, spec.id+".smt2"), []byte("; sample of an assertion query discharged by this run (expected: "+answers[0]+")\n"+scripts[0]), 0o644)
 	}
 
 	// native replay of every violation; only reproduced ones are reported
 	known := loadKnown(root)
-	os.MkdirAll(filepath.Join(root, "replays"), 0o755)
+	os.MkdirAll(rpDir, 0o755)
 	newViolations := 0
 	knownHits := map[int]bool{}
 	byDir := map[string][]*Violation{}
@@ -310,7 +318,7 @@ func cmdCheck(args []string) {
 				}
 				nrep++
 				rf := replayFile{Property: spec.id, Dir: d, Label: v.Label, Site: v.Site, Entry: v.Entry, Arg: v.Arg, Values: v.Values, Race: g.race, Shown: showValues(v.Values)}
-				path := filepath.Join(root, "replays", fmt.Sprintf("%s-%d.json", spec.id, nrep))
+				path := filepath.Join(rpDir, fmt.Sprintf("%s-%d.json", spec.id, nrep))
 				os.WriteFile(path, mustJSON(rf), 0o644)
 				fmt.Printf("VIOLATION property=%s replay=%s\n", spec.id, path)
 				fmt.Printf("  assertion %q at %s fails for %s(%d) with %s (x%d paths)\n", v.Label, v.Site, v.Entry, v.Arg, showValues(v.Values), v.Count)
@@ -393,8 +401,8 @@ func cmdCheck(args []string) {
 			"workers":                 *workers,
 		},
 	}
-	os.MkdirAll(filepath.Join(root, "evidence"), 0o755)
-	os.WriteFile(filepath.Join(root, "evidence", spec.id+".json"), mustJSON(ev), 0o644)
+	os.MkdirAll(evDir, 0o755)
+	os.WriteFile(filepath.Join(evDir, spec.id+".json"), mustJSON(ev), 0o644)
 
 	fmt.Printf("%s %s: %d runs, %d paths, %d decisions, %d assertions reached, %d solver queries (%.1fs), %d witness paths validated natively, %.1fs wall\n",
 		spec.id, *tier, len(all), tot.Paths, tot.Decisions, tot.Asserts, tot.Solver.Queries, tot.Solver.Time.Seconds(), validated, wall)
